@@ -1165,6 +1165,9 @@ result_t NumberDataType::getRawValueFromFloat(float val, unsigned int* output) c
       } else {
         dvalue = round(dvalue * m_divisor);
       }
+      if (std::isnan(dvalue)) {
+        return RESULT_ERR_INVALID_NUM;  // not a number
+      }
       int length = static_cast<int>(m_bitCount/8);
       if (hasFlag(SIG)) {
         if (dvalue < -exp2((8 * static_cast<double>(length)) - 1)
@@ -1258,6 +1261,9 @@ result_t NumberDataType::parseInput(const string inputStr, unsigned int* parsedV
           dvalue = round(dvalue / -m_divisor);
         } else {
           dvalue = round(dvalue * m_divisor);
+        }
+        if (std::isnan(dvalue)) {
+          return RESULT_ERR_INVALID_NUM;  // not a number
         }
         if (hasFlag(SIG)) {
           double max = exp2(m_bitCount - 1);
